@@ -36,6 +36,9 @@ def main():
     rows = []
     caught_first = caught_now = total = 0
     per_round = {}
+
+    def noinput(x):
+        return isinstance(x, str) and x.startswith("caught, no failing input")
     for d in sorted((VERIF / "seeded").iterdir(), key=lambda p: key(p.name)):
         m = json.loads((d / "meta.json").read_text())
         now = {p: c.get("caught") for p, c in m.get("what_i_ran", {}).get("checks", {}).items()}
@@ -45,11 +48,12 @@ def main():
         caught_first += bool(first.get(own) is True)
         caught_now += bool(now.get(own) is True)
         rnd = (key(d.name)[1] - 1) // 3 + 1
-        pr = per_round.setdefault(rnd, [0, 0, 0, 0])
+        pr = per_round.setdefault(rnd, [0, 0, 0, 0, 0])
         pr[0] += 1
         pr[1] += bool(first.get(own) is True)
         pr[2] += bool(now.get(own) is True)
         pr[3] += bool(any(v is True for v in now.values()))
+        pr[4] += bool(noinput(first.get(own)))
         how = ""
         lines = m.get("what_i_ran", {}).get("checks", {}).get(own, {}).get("lines", [])
         for l in lines:
@@ -65,8 +69,9 @@ def main():
             "now | how it is reported now |\n|---|---|---|---|---|---|\n")
     summary = (f"\n{total} independent changes; the property's own check caught {caught_first} of them when first run and "
                f"catches {caught_now} now (the others are caught by the check of a sibling property, see the columns).\n\n"
-               + "| round | seeds | own check caught at first run | own check catches now | some check catches now |\n|---|---|---|---|---|\n"
-               + "".join(f"| {r} | {v[0]} | {v[1]} | {v[2]} | {v[3]} |\n" for r, v in sorted(per_round.items())))
+               + "| round | seeds | own check caught at first run, with a failing input | own check caught at first run, naming only the "
+                 "broken proof / correspondence | own check catches now | some check catches now |\n|---|---|---|---|---|---|\n"
+               + "".join(f"| {r} | {v[0]} | {v[1]} | {v[4]} | {v[2]} | {v[3]} |\n" for r, v in sorted(per_round.items())))
     text = head + "\n".join(rows) + "\n" + summary
     p = VERIF / "DESIGN.md"
     s = p.read_text()
